@@ -628,9 +628,10 @@ class Rmcp(object):
                         received = rx_filter(header, rx_data,
                                              rq_seq=not self.ignore_rq_seq)
 
-                        if not received:
-                            self._q.put(rx_data)
-
+                        # A frame that does not answer this request is dropped:
+                        # the transaction lock allows one outstanding request
+                        # only, so it can never answer a later one, and _q is
+                        # read before the socket.
                         received_retry += 1
 
                     if not received:
